@@ -64,3 +64,58 @@ scon_guard::next () const
 {
   return m_op->next (m_sc);
 }
+
+#ifdef DWGREP_VERIF
+#include <cstdio>
+#include <cstdlib>
+#include <cstring>
+
+namespace
+{
+  [[noreturn]] void
+  verif_fail (char const *what, size_t loc, size_t size, char const *type)
+  {
+    fprintf (stderr, "DWGREP_VERIF scon: %s (offset %zu, size %zu, type %s)\n",
+	     what, loc, size, type);
+    abort ();
+  }
+}
+
+void
+scon::verif_con (size_t loc, size_t size, char const *type)
+{
+  if (loc + size > m_buf.size ())
+    verif_fail ("state constructed outside the buffer", loc, size, type);
+  for (auto const &live: m_verif_live)
+    if (live.first < loc + size && loc < live.first + live.second.size)
+      verif_fail (live.first == loc ? "state constructed twice"
+		  : "state overlaps a live state", loc, size, type);
+  m_verif_live[loc] = verif_slot {size, type};
+}
+
+void
+scon::verif_get (size_t loc, size_t size, char const *type)
+{
+  auto it = m_verif_live.find (loc);
+  if (it == m_verif_live.end ())
+    verif_fail ("state used while not constructed", loc, size, type);
+  if (it->second.size != size || strcmp (it->second.type, type) != 0)
+    verif_fail ("state used as another type", loc, size, type);
+}
+
+void
+scon::verif_des (size_t loc, size_t size, char const *type)
+{
+  // verif_get has run already.
+  m_verif_live.erase (loc);
+}
+
+scon::~scon ()
+{
+  if (! m_verif_live.empty ())
+    verif_fail ("state still constructed when the buffer is released",
+		m_verif_live.begin ()->first,
+		m_verif_live.begin ()->second.size,
+		m_verif_live.begin ()->second.type);
+}
+#endif
